@@ -1700,6 +1700,21 @@ where
         self.keep = true;
     }
 
+    /// Record that the report turned out to be empty and was therefore *not sent*
+    /// (see [`Self::should_send_if_empty`]).
+    ///
+    /// The watermarks still advance on [`Self::set_keep`]: the pending changes/events
+    /// were looked at and none of them concerns this subscriber. But a report that
+    /// was not sent is not a report: `reported_at` stays that of the last report
+    /// actually *sent*, so the liveness deadline (`report_due_at`) and `is_expired`
+    /// keep measuring from it. Otherwise, frequent changes the subscriber is not
+    /// interested in would keep pushing both out, the (empty) liveness report would
+    /// never be sent, and the subscriber - hearing nothing for `max_int` - would
+    /// consider the subscription dead.
+    pub fn set_not_sent(&mut self) {
+        self.next_reported_at = self.subscription().reported_at;
+    }
+
     /// Keep the subscription in the table after a *failed* send to the peer, so it
     /// retries — with a back-off, and without advancing its watermarks or its
     /// last-success timestamp.
